@@ -213,7 +213,7 @@ func (c *c15Run) viol(sig, format string, a ...any) {
 		format = "sequence put generated the existing key " + hexs(c.ref.seqOverKey) + "; " + format
 		defer func() { c.tainted = true }()
 	}
-	c.o.Violation(sig, fmt.Sprintf("%s ops=%s : ", c.tag, strings.Join(c.r.ops, ";"))+fmt.Sprintf(format, a...))
+	c.o.Violation(sig, fmt.Sprintf(format, a...)+fmt.Sprintf(" | %s ops=%s", c.tag, strings.Join(c.r.ops, ";")))
 }
 
 func (c *c15Run) checkMirror(ctx string) {
